@@ -162,6 +162,22 @@ func oracle(c *Case, o *Obs) []Finding {
 	if w := misdecoded(c, o); w != "" {
 		add("genuine-body-misdecoded", w)
 	}
+	// Dimension WHICH RETURN CARRIES THE CALL'S OUTCOME (verdict.go): every return
+	// that tells the application "the call succeeded" is judged, not only the
+	// error that ends a receive loop.
+	lost := false
+	for _, v := range successVerdicts(c, o) {
+		if v.Final {
+			continue // io.EOF from the last RecvMsg: judged below
+		}
+		switch {
+		case m.Stop != stTrailerOK:
+			add(clauseSuccessByResponse, fmt.Sprintf("%s returned nil, handing over the single response %q: for a call with a single response that is the report of a successful call (a generated CloseAndRecv / a unary method invoked through NewStream makes no other call), but the response %s (%s ending)", v.At, o.DeliveredS[v.Delivered-1], describeStop(m.Stop), c.ending()))
+		case len(m.Frames) != v.Delivered && !lost:
+			lost = true
+			add("lost-message-on-success", fmt.Sprintf("%s reported success with %d of %d messages", v.At, v.Delivered, len(m.Frames)))
+		}
+	}
 	if o.FinalNil {
 		add("no-terminal-error", fmt.Sprintf("%d RecvMsg calls, none failed", maxRecv))
 		return out
@@ -173,7 +189,7 @@ func oracle(c *Case, o *Obs) []Finding {
 	if c.Side == "client" {
 		if m.Stop != stTrailerOK {
 			add("reported-success", fmt.Sprintf("client RecvMsg ended with io.EOF (call looks successful) after %d message(s), but the response %s (%s ending)", len(o.Delivered), describeStop(m.Stop), c.ending()))
-		} else if len(o.Delivered) != len(m.Frames) {
+		} else if len(o.Delivered) != len(m.Frames) && !lost {
 			add("lost-message-on-success", fmt.Sprintf("success with %d of %d messages", len(o.Delivered), len(m.Frames)))
 		}
 		return out
